@@ -64,4 +64,41 @@ PROPS = {
                              "expected_error_cases"],
         "assumptions": ASSUME_COMMON,
     },
+    "C19": {
+        "rule": ("cases 0-255: the 2^31 integers of the terminal range in 256 chunks; cases 256-767: the 2^32 float bit patterns "
+                 "(NaNs excluded) in 512 chunks; case 768: booleans, 13 integers outside the range (must raise VALUE_OVERFLOW), "
+                 "forest-level handleForValue/getValueFromHandle/createConstant+evaluate for MT int/real/bool set and relation "
+                 "forests, EV+ infinity and 64-bit edge values, EV* constants, edge_value and rangeval round trips.  thorough tier "
+                 "checks EVERY value of every chunk (exhaustive, -O2 build); quick tier checks the first and last 64 values of "
+                 "every chunk plus a random-offset stride of 128 (2^24 integers, 2^25 floats) under ASan/UBSan.  Oracle per value: "
+                 "decode(encode(v)) == v (floats: == v with the low fraction bit cleared), handle 0 iff the (rounded) value is 0, "
+                 "handle never positive; distinctness of handles follows from the round trip.  distinct = chunk"),
+        "passes": {
+            "quick": [P("main", "asan", 769)],
+            "thorough": [P("main", "opt", 769, chunk=8)],
+        },
+        "exhaustive": {"quick": False, "thorough": True},
+        "require_counters": ["integer_values", "float_patterns", "overflow_values", "forest_int_values", "forest_real_values", "evplus_values", "evtimes_values"],
+        "assumptions": ASSUME_COMMON + ["sizeof(node_handle)==4 (the 64-bit handle branch of terminal.h is not compiled into this build)"],
+        "technique": "runtime monitoring: exhaustive encode/decode sweep with round-trip oracle (thorough), strided sweep under ASan/UBSan (quick)",
+    },
+    "C18": {
+        "rule": ("each case drives one manager style (ORIGINAL_GRID, ARRAY_PLUS_GRID, HEAP_MANAGER, MALLOC_MANAGER, FREELISTS; case index "
+                 "mod 5) at one granularity (4 or 8 bytes) directly through requestChunk/recycleChunk/getChunkAddress with 3-7 phases "
+                 "(random mix, grow then free every other chunk then refill, drain in random order, same-size churn, grow/shrink waves), "
+                 "request sizes from the declared minimum to 12/64/120/700 slots (FREELISTS: 1..15, its maximum); shadow allocator "
+                 "M6 asserts after every request: handle non-zero, size >= requested, byte range disjoint from every live chunk; "
+                 "before every recycle and at every phase end: every slot of every live chunk still holds its sentinel (MSB rules "
+                 "of first/last slot respected); ASan watches the arenas.  non-trivial = more than 50 requests and 50 recycles; "
+                 "distinct = (case, request/recycle counts)"),
+        "passes": {
+            "quick": [P("main", "asan", 400)],
+            "thorough": [P("main", "asan", 6000)],
+        },
+        "require_counters": ["requests", "recycles", "chunk_verifications", "style:ORIGINAL_GRID:g4", "style:ARRAY_PLUS_GRID:g4",
+                             "style:HEAP_MANAGER:g4", "style:MALLOC_MANAGER:g4", "style:FREELISTS:g4", "style:ORIGINAL_GRID:g8",
+                             "style:ARRAY_PLUS_GRID:g8"],
+        "assumptions": ASSUME_COMMON,
+        "technique": "runtime monitoring: shadow-allocator monitor (interval map + sentinels) over direct request/recycle histories, under ASan",
+    },
 }
